@@ -121,6 +121,10 @@ func genOptFloat(t *rapid.T, label string, maxAbs int) FloatVal {
 	return GenFloat(t, label, maxAbs)
 }
 
+// DSTDays are civil dates on which some agency zone of the pool changes its offset.
+var DSTDays = [][3]int{{2024, 3, 10}, {2024, 11, 3}, {2023, 3, 12}, {2023, 11, 5}, {2024, 3, 31}, {2024, 10, 27}, {2024, 4, 7}, {2024, 10, 6},
+	{2024, 3, 9}, {2024, 3, 11}, {2024, 11, 2}, {2024, 11, 4}, {2018, 11, 4}, {2019, 2, 17}, {2024, 3, 17}, {2022, 11, 6}}
+
 // GenDate draws a civil date whose midnight exists exactly once in loc.
 func GenDate(t *rapid.T, label string, loc *time.Location) (Date, bool) {
 	y := rapid.OneOf(rapid.IntRange(1995, 2050), rapid.SampledFrom([]int{2022, 2023, 2024, 1970, 2099})).Draw(t, label+"Y")
@@ -131,6 +135,10 @@ func GenDate(t *rapid.T, label string, loc *time.Location) (Date, bool) {
 		if m == 2 && y%4 == 0 && (y%100 != 0 || y%400 == 0) {
 			d = 29
 		}
+	}
+	if rapid.IntRange(0, 5).Draw(t, label+"DSTDay") == 0 {
+		ymd := rapid.SampledFrom(DSTDays).Draw(t, label+"DSTDate")
+		y, m, d = ymd[0], ymd[1], ymd[2]
 	}
 	moved := false
 	for i := 0; i < 6 && !MidnightOK(y, m, d, loc); i++ {
@@ -144,14 +152,15 @@ func GenDate(t *rapid.T, label string, loc *time.Location) (Date, bool) {
 	return Date{y, m, d}, moved
 }
 
-// MidnightOK: local midnight of the date exists, is unique, and no offset change is within 2h.
+// MidnightOK: local midnight of the date exists, is unique, and no offset change is within an hour of it
+// (a 02:00 transition on that day is fine: those are exactly the interesting days).
 func MidnightOK(y, m, d int, loc *time.Location) bool {
 	t := time.Date(y, time.Month(m), d, 0, 0, 0, 0, loc)
 	if t.Hour() != 0 || t.Minute() != 0 || t.Day() != d || int(t.Month()) != m || t.Year() != y {
 		return false
 	}
 	_, o := t.Zone()
-	for _, dt := range []time.Duration{-2 * time.Hour, -time.Hour, -time.Second, time.Second, time.Hour, 2 * time.Hour} {
+	for _, dt := range []time.Duration{-time.Hour, -time.Second, time.Second, time.Hour} {
 		if _, o2 := t.Add(dt).Zone(); o2 != o {
 			return false
 		}
